@@ -216,6 +216,18 @@ theorem C06_machine_none_due_after_execute {s : State} (h : Reachable s)
       rw [show HostOp.apply s .execute = hostExecute s from rfl, ho] at this; cases this
   exact hostExecute_none_due ((reachable_hinv h).get hs) ho
 
+/-- **A host call drains due timers too, machine level.**  `ScriptExecuteInternal` ends with
+    `ExecuteRunning`; for a top-level host call (label found, fuel not exhausted) no timer element is due
+    when `ExecuteThread` returns — in particular a `wait 0` is resumed inside the same host call. -/
+theorem C06_machine_none_due_after_call {s : State} (h : Reachable s) (label : Nat) (args : List V)
+    (hl : label < s.prog.length) (ho : (hostCall s label args).1.outOfFuel = false) :
+    ∀ e ∈ (hostCall s label args).1.timer.elems, (hostCall s label args).1.timer.mtime < e.2 := by
+  have hs : s.outOfFuel = false := by
+    cases hs : s.outOfFuel with
+    | false => rfl
+    | true => rw [(hostCall_hr s label args).oof hs] at ho; cases ho
+  exact hostCall_none_due ((reachable_hinv h).get hs) label args hl ho
+
 /-- **The clock discipline**, in every reachable state: `scaledTime`, the timer's `m_time` and the clock
     of the last frame coincide (time scale 1, clock moved only between `Execute` calls) — so a due time
     `scaledTime + d` stored by `wait d` is "frame clock at the wait + d" and is compared with the frame
@@ -272,5 +284,9 @@ example : (hostExecute (runOps {} (demoHost ++ [.advance 5]))).outOfFuel = false
 /-- a frame at clock 4 is too early: nothing runs, the element stays, and it is not due -/
 example : (hostExecute (runOps {} (demoHost ++ [.advance 4]))).out = [] ∧
     (hostExecute (runOps {} (demoHost ++ [.advance 4]))).timer.elems = [(100, 5)] := by decide +kernel
+
+/-- `wait 0` resumes inside the same host call: marker 2 is printed by the call, the timer is empty after it -/
+example : (runOps {} [.script [[.mark 1, .wait 0, .mark 2]] [0], .call 0 []]).out = ["m2", "m1"] ∧
+    (runOps {} [.script [[.mark 1, .wait 0, .mark 2]] [0], .call 0 []]).timer.elems = [] := by decide +kernel
 
 end Morfuse.Sched
